@@ -465,10 +465,11 @@ impl Store {
         match trace_or_local_wait(id) {
             Some(trace::AckState::Ok) => {}
             Some(s) => return Err(format!("ack: {:?}", s)),
-            None => return Err("ack timeout".into()),
+            // (running out of time is not a statement about the store: callers treat "TIMEOUT" as not judged)
+            None => return Err("TIMEOUT: no acknowledgement within the wait limit".into()),
         }
-        if !self.wait_idle(20_000) {
-            return Err("idle timeout".into());
+        if !self.wait_idle(60_000) {
+            return Err("TIMEOUT: worker not idle within the wait limit".into());
         }
         Ok(())
     }
@@ -552,7 +553,7 @@ pub enum Outcome2<T> {
 
 /// Acks are recorded in the trace when tracing is on, else in a local table.
 pub fn trace_or_local_wait(id: u64) -> Option<trace::AckState> {
-    trace::wait_ack(id, 20_000)
+    trace::wait_ack(id, 60_000)
 }
 
 pub fn dump_dir(dir: &str, cfg: &CfgSpec) -> Result<String, String> {
